@@ -278,6 +278,7 @@ func evalRaw(c *core.Ctx, f []string) *core.Case {
 			break
 		}
 	}
+	rawStats(c, impls)
 	line := fmt.Sprintf("dhcp.raw %d %d %s %s @ %d %s %s", cfgIdx, mode, f[3], strings.Join(done, ";"), c11.NowH*c11.Hour, cfg, strings.Join(pres, " "))
 	return &core.Case{Line: line, Impl: strings.Join(impls, " / "), Trivial: trivial,
 		Oracle: func() (string, string) {
@@ -286,6 +287,34 @@ func evalRaw(c *core.Ctx, f []string) *core.Case {
 			}
 			return "", ""
 		}}
+}
+
+// rawStats: what the evaluated events were (evidence: coverage.dhcp_raw_events).
+func rawStats(c *core.Ctx, impls []string) {
+	m, _ := c.Res.Extra["dhcp_raw_events"].(map[string]int)
+	if m == nil {
+		m = map[string]int{}
+		c.Res.Extra["dhcp_raw_events"] = m
+	}
+	for _, s := range impls {
+		f := strings.Fields(s)
+		if len(f) < 4 {
+			m[s]++
+			continue
+		}
+		m[f[1]]++
+		st := strings.Split(f[2], "|")
+		switch {
+		case len(st) < 3:
+		case st[2] == "-":
+			m["no-reply"]++
+		default:
+			m["reply-"+strings.SplitN(st[2], ":", 2)[0]]++
+		}
+		if f[3] != "decl=-" {
+			m["client-direction-"+f[3]]++
+		}
+	}
 }
 
 // ---------------------------------------------------------------------------------------------
@@ -452,7 +481,7 @@ func (g *rawGen) line(mode int, cfgIdx int, setup string, evs []rawEv) string {
 // evaluated from scratch (fresh world) by Eval.
 func GenRaw(c *core.Ctx) {
 	r := c.Rnd
-	n := c.Scale(700, 30000)
+	n := c.Scale(1500, 40000)
 	for i := 0; i < n; i++ {
 		if hangs >= 3 {
 			c.Drop("dhcp.raw-history", "skipped: hang budget of dhcp.proc spent")
@@ -498,7 +527,7 @@ func GenRaw(c *core.Ctx) {
 		add(c, "dhcp.raw-history", g.line(mode, cfgIdx, setup, evs))
 		last := evs[len(evs)-1]
 		prefix := evs[:len(evs)-1]
-		if i%c.Scale(35, 300) == 0 { // the last payload cut at every length (option area) / every 8th (header)
+		if i%c.Scale(30, 300) == 0 { // the last payload cut at every length (option area) / every 8th (header)
 			for cut := 0; cut <= len(last.p); cut++ {
 				if cut < 236 && cut%8 != 0 {
 					continue
